@@ -1,10 +1,501 @@
-//! C13 — (stub; filled in during the build phase)
+//! C13 — lint suppression silences only the named lints in scope, never errors.
 
 use super::PropMeta;
 use crate::engine::*;
+use crate::model::run::*;
+use crate::model::tree::*;
+use crate::util::*;
+use clap::Parser;
+use serde_json::{json, Value};
+use slicec::slice_options::SliceOptions;
 
-pub fn meta(_m: &mut PropMeta) {}
+pub fn meta(m: &mut PropMeta) {
+    m.rule = "for each lint kind a template per element kind on which it can arise (Deprecated: field, parameter, return-tuple member, single return, alias, base interface, enumerator field, nested sequence element; BrokenDocLink / IncorrectDocComment / MalformedDocComment: every commentable kind; DuplicateFile: real files given twice) x suppression placement {none, command line, file attribute, enclosing definition, enclosing member, the element itself, an unrelated sibling, another file} x argument {that lint, All, another lint, two lints, that lint in another letter case on the command line} x {alone, next to an error}: complete product, and all ordered pairs of placements with 'that lint' / 'another lint'. Every insertion point is a line of its own so that no position moves. Options are parsed by the real clap definition. Oracle: reference level (Allowed iff named or All by an accepted --allow, by the file of occurrence, by the element concerned or a definition enclosing it; otherwise Warning; the enclosing-member placement is not judged: the statement says 'definition'); differential: with and without the suppression the diagnostic list (codes, messages, spans, notes, order) is identical except for the levels of the targeted lints, the observed AST is identical except for the added allow attribute, a control lint of another kind on an unrelated definition changes only when named at command-line/file level, and errors keep level Error. non-trivial = the suppression is in scope of the lint; distinct = distinct (template, placement, argument) inputs.";
+    m.explanation = "complete template x placement x argument product with a reference level function and a differential oracle";
+    m.quick_bound = "32 templates x 8 placements x 5 arguments x 2; placement pairs";
+    m.thorough_bound = "same (complete)";
+}
+
+#[derive(Clone, Copy, Debug, PartialEq, Eq)]
+enum Slot {
+    File,
+    Def,
+    Member,
+    Elem,
+    Sibling,
+}
+
+#[derive(Clone, Copy, Debug, PartialEq, Eq)]
+enum Place {
+    None,
+    Cli,
+    File,
+    Def,
+    Member,
+    Elem,
+    Sibling,
+    OtherFile,
+}
+const PLACES: [Place; 8] = [Place::None, Place::Cli, Place::File, Place::Def, Place::Member, Place::Elem, Place::Sibling, Place::OtherFile];
+
+struct Template {
+    lint: &'static str,
+    control: &'static str,
+    name: &'static str,
+    /// lines; a line may be a slot
+    lines: Vec<(String, Option<Slot>)>,
+}
+
+fn l(s: &str) -> (String, Option<Slot>) {
+    (s.to_string(), None)
+}
+fn slot(s: Slot) -> (String, Option<Slot>) {
+    (String::new(), Some(s))
+}
+
+fn control_lines(control: &str) -> Vec<(String, Option<Slot>)> {
+    match control {
+        "BrokenDocLink" => vec![l("/// {@link NopeCtrl}"), l("custom CTRL")],
+        "MalformedDocComment" => vec![l("/// @bogus"), l("custom CTRL")],
+        _ => unreachable!(),
+    }
+}
+
+fn templates() -> Vec<Template> {
+    let mut v = vec![];
+    let mut add = |lint: &'static str, name: &'static str, body: Vec<(String, Option<Slot>)>| {
+        let control = if lint == "BrokenDocLink" { "MalformedDocComment" } else { "BrokenDocLink" };
+        let mut lines = vec![slot(Slot::File), l("module M"), l("[deprecated] struct D {}"), l("[deprecated(\"old\")] interface DI {}")];
+        lines.extend(body);
+        lines.extend(control_lines(control));
+        v.push(Template { lint, control, name, lines });
+    };
+    use Slot::*;
+    // ---- Deprecated
+    add("Deprecated", "field", vec![slot(Def), l("struct S {"), slot(Sibling), l("  s: int32"), slot(Elem), l("  f: D"), l("}")]);
+    add("Deprecated", "parameter", vec![slot(Def), l("interface I {"), slot(Sibling), l("  other()"), slot(Member), l("  op("), slot(Elem), l("    p: D"), l("  )"), l("}")]);
+    add("Deprecated", "return-tuple-member", vec![slot(Def), l("interface I {"), slot(Sibling), l("  other()"), slot(Member), l("  op() -> ("), slot(Elem), l("    r: D"), l("    q: int32"), l("  )"), l("}")]);
+    add("Deprecated", "single-return", vec![slot(Def), l("interface I {"), slot(Sibling), l("  other()"), slot(Elem), l("  op() -> D"), l("}")]);
+    add("Deprecated", "alias", vec![slot(Sibling), l("struct Sib {}"), slot(Elem), l("typealias A = D")]);
+    add("Deprecated", "base-interface", vec![slot(Sibling), l("struct Sib {}"), slot(Elem), l("interface I : DI {}")]);
+    add("Deprecated", "enumerator-field", vec![slot(Def), l("enum E {"), slot(Sibling), l("  W"), slot(Member), l("  V("), slot(Elem), l("    f: D"), l("  )"), l("}")]);
+    add("Deprecated", "nested-sequence-element", vec![slot(Def), l("struct S {"), slot(Sibling), l("  s: int32"), slot(Elem), l("  f: Sequence<Dictionary<int32, D?>>"), l("}")]);
+    // ---- comment lints on every commentable kind
+    for (lint, comment) in [("BrokenDocLink", "/// See {@link Nope}."), ("MalformedDocComment", "/// @foo bar"), ("IncorrectDocComment", "/// @returns: nothing")] {
+        let c = comment;
+        add(lint, "struct", vec![slot(Sibling), l("struct Sib {}"), slot(Elem), l(c), l("struct S {}")]);
+        add(lint, "field", vec![slot(Def), l("struct S {"), slot(Sibling), l("  s: int32"), slot(Elem), l(c), l("  f: int32"), l("}")]);
+        add(lint, "interface", vec![slot(Sibling), l("struct Sib {}"), slot(Elem), l(c), l("interface I {}")]);
+        add(lint, "operation", vec![slot(Def), l("interface I {"), slot(Sibling), l("  other()"), slot(Elem), l(c), l("  op()"), l("}")]);
+        add(lint, "enum", vec![slot(Sibling), l("struct Sib {}"), slot(Elem), l(c), l("enum E { A }")]);
+        add(lint, "enumerator", vec![slot(Def), l("enum E {"), slot(Sibling), l("  W"), slot(Elem), l(c), l("  V"), l("}")]);
+        add(lint, "custom", vec![slot(Sibling), l("struct Sib {}"), slot(Elem), l(c), l("custom C")]);
+        add(lint, "alias", vec![slot(Sibling), l("struct Sib {}"), slot(Elem), l(c), l("typealias A = int32")]);
+    }
+    v
+}
+
+#[derive(Clone, Debug, PartialEq, Eq)]
+enum Arg {
+    That,
+    All,
+    Other,
+    Two,
+    /// only meaningful on the command line
+    ThatLowercase,
+}
+const ARGS: [Arg; 5] = [Arg::That, Arg::All, Arg::Other, Arg::Two, Arg::ThatLowercase];
+
+fn arg_text(a: &Arg, t: &Template) -> Vec<String> {
+    match a {
+        Arg::That => vec![t.lint.to_string()],
+        Arg::All => vec!["All".to_string()],
+        Arg::Other => vec![t.control.to_string()],
+        Arg::Two => vec![t.control.to_string(), t.lint.to_string()],
+        Arg::ThatLowercase => vec![t.lint.to_lowercase()],
+    }
+}
+fn names(a: &Arg, code: &str, t: &Template) -> bool {
+    match a {
+        Arg::That => code == t.lint,
+        Arg::All => true,
+        Arg::Other => code == t.control,
+        Arg::Two => code == t.lint || code == t.control,
+        // the statement: named by an --allow value that the command line accepts
+        Arg::ThatLowercase => code == t.lint,
+    }
+}
+
+struct Rendered {
+    files: Vec<String>,
+    cli: Vec<String>,
+}
+
+fn render(t: &Template, places: &[(Place, Arg)], with_error: bool) -> Rendered {
+    let mut text = String::new();
+    for (line, s) in &t.lines {
+        match s {
+            None => text.push_str(line),
+            Some(sl) => {
+                for (p, a) in places {
+                    let hit = matches!((p, sl), (Place::File, Slot::File) | (Place::Def, Slot::Def) | (Place::Member, Slot::Member) | (Place::Elem, Slot::Elem) | (Place::Sibling, Slot::Sibling));
+                    if hit {
+                        let args = arg_text(a, t).join(", ");
+                        if *sl == Slot::File {
+                            text.push_str(&format!("[[allow({args})]]"));
+                        } else {
+                            text.push_str(&format!("[allow({args})]"));
+                        }
+                    }
+                }
+            }
+        }
+        text.push('\n');
+    }
+    if with_error {
+        text.push_str("compact struct BAD {}\n");
+    }
+    let mut other = String::new();
+    for (p, a) in places {
+        if *p == Place::OtherFile {
+            other.push_str(&format!("[[allow({})]]", arg_text(a, t).join(", ")));
+        }
+    }
+    other.push_str("\nmodule N\nstruct Z {}\n");
+    let mut cli = vec![];
+    for (p, a) in places {
+        if *p == Place::Cli {
+            for x in arg_text(a, t) {
+                cli.push("-A".to_string());
+                cli.push(x);
+            }
+        }
+    }
+    Rendered { files: vec![text, other], cli }
+}
+
+fn has_slot(t: &Template, s: Slot) -> bool {
+    t.lines.iter().any(|(_, x)| *x == Some(s))
+}
+
+fn place_exists(t: &Template, p: Place) -> bool {
+    match p {
+        Place::Def => has_slot(t, Slot::Def),
+        Place::Member => has_slot(t, Slot::Member),
+        Place::Sibling => has_slot(t, Slot::Sibling),
+        _ => true,
+    }
+}
+
+/// Some(true/false) = the reference says in scope / not in scope of the target lint; None = not judged
+fn in_scope_target(p: Place) -> Option<bool> {
+    match p {
+        Place::None | Place::Sibling | Place::OtherFile => Some(false),
+        Place::Cli | Place::File | Place::Def | Place::Elem => Some(true),
+        Place::Member => None,
+    }
+}
+fn in_scope_control(p: Place) -> bool {
+    matches!(p, Place::Cli | Place::File)
+}
+
+fn strip_allow(n: &mut Node) {
+    n.children.retain(|c| !((c.kind == "attr" || c.kind == "fileattr") && c.get("directive") == Some("allow")));
+    for c in &mut n.children {
+        strip_allow(c);
+    }
+}
+
+fn strip_spans_nothing(_: &mut Node) {}
+
+fn run_config(t: &Template, places: &[(Place, Arg)], with_error: bool, fam: &str, out: &mut CaseOut) -> String {
+    let _ = strip_spans_nothing;
+    let base = render(t, &[], with_error);
+    let with = render(t, places, with_error);
+    let desc = || format!("template {}/{} places {:?} error={}\n--- file 0 ---\n{}--- file 1 ---\n{}--- argv: {:?}", t.lint, t.name, places, with_error, with.files[0], with.files[1], with.cli);
+    // options through the real command-line definition
+    let mut argv = vec!["slicec".to_string()];
+    argv.extend(with.cli.iter().cloned());
+    let opts = match guarded(|| SliceOptions::try_parse_from(argv.clone())) {
+        Err((loc, msg)) => {
+            out.violate(format!("c13/{fam}/panic@{loc}"), format!("parsing {argv:?} panicked: {msg}"));
+            return "panic".into();
+        }
+        Ok(Err(_)) => return "cli-rejected".into(), // a value the command line does not accept is not a suppression
+        Ok(Ok(o)) => o,
+    };
+    let base_opts = SliceOptions::default();
+    let compile = |files: &Vec<String>, o: &SliceOptions| {
+        let refs: Vec<&str> = files.iter().map(|s| s.as_str()).collect();
+        compile_texts(&refs, Some(o))
+    };
+    out.steps += 2;
+    let (b, w) = match (compile(&base.files, &base_opts), compile(&with.files, &opts)) {
+        (Ok(b), Ok(w)) => (b, w),
+        (Err((loc, msg)), _) | (_, Err((loc, msg))) => {
+            out.violate(format!("c13/{fam}/panic@{loc}"), format!("panic at {loc}: {msg}\n{}", desc()));
+            return "panic".into();
+        }
+    };
+    let (_, bfiles, bd) = b;
+    let (_, wfiles, wd) = w;
+    // template sanity: the baseline produces the target lint as a warning
+    let target_base: Vec<&DiagObs> = bd.iter().filter(|d| d.code == t.lint).collect();
+    if target_base.is_empty() || target_base.iter().any(|d| d.level != "warning") {
+        out.violate(format!("c13/{fam}/lint-not-reported-as-warning/{}", t.lint), format!("without any suppression the {} lint of this template must be a warning; diagnostics: {:?}\n{}", t.lint, bd.iter().map(|d| (&d.code, &d.level)).collect::<Vec<_>>(), desc()));
+        return "no-lint".into();
+    }
+    // 1. identical diagnostic list except for levels
+    let strip = |d: &DiagObs| (d.code.clone(), d.message.clone(), d.file.clone(), d.span, d.notes.clone());
+    let bl: Vec<_> = bd.iter().map(strip).collect();
+    let wl: Vec<_> = wd.iter().map(strip).collect();
+    if bl != wl {
+        let first = bl.iter().zip(wl.iter()).position(|(a, b)| a != b).unwrap_or(bl.len().min(wl.len()));
+        out.violate(
+            format!("c13/{fam}/other-diagnostics-changed"),
+            format!("adding the suppression changed more than levels: diagnostic #{first}: without {:?}, with {:?} ({} vs {} diagnostics)\n{}", bl.get(first), wl.get(first), bl.len(), wl.len(), desc()),
+        );
+        return "diags-changed".into();
+    }
+    // 2. levels
+    let mut class = String::new();
+    for (i, d) in wd.iter().enumerate() {
+        let base_level = &bd[i].level;
+        if d.level == "error" || base_level == "error" {
+            if d.level != *base_level {
+                out.violate(format!("c13/{fam}/error-level-changed"), format!("{} changed level {} -> {}\n{}", d.code, base_level, d.level, desc()));
+            }
+            continue;
+        }
+        let is_target = d.code == t.lint;
+        let is_control = d.code == t.control;
+        let mut expected_allowed: Option<bool> = Some(false);
+        for (p, a) in places {
+            if !names(a, &d.code, t) {
+                continue;
+            }
+            if *a == Arg::ThatLowercase && *p != Place::Cli {
+                continue; // only judged on the command line (in an attribute it is an invalid argument: an error)
+            }
+            let sc = if is_target {
+                in_scope_target(*p)
+            } else if is_control {
+                Some(in_scope_control(*p))
+            } else {
+                None
+            };
+            match sc {
+                Some(true) => expected_allowed = Some(true),
+                Some(false) => {}
+                None => {
+                    if expected_allowed != Some(true) {
+                        expected_allowed = None
+                    }
+                }
+            }
+        }
+        if let Some(exp) = expected_allowed {
+            let got = d.level == "allowed";
+            if exp != got {
+                let which = if is_target { "target" } else { "control" };
+                let pl: Vec<String> = places.iter().map(|(p, a)| format!("{p:?}:{a:?}")).collect();
+                out.violate(
+                    format!("c13/{fam}/{}/{}/{}", if exp { "not-silenced" } else { "wrongly-silenced" }, which, pl.join("+")),
+                    format!("{} lint {} ({}) has level {} but the suppression {:?} {} it\n{}", which, d.code, d.message, d.level, places, if exp { "is in scope and names" } else { "is out of scope of or does not name" }, desc()),
+                );
+            }
+        }
+        if is_target {
+            class.push_str(if d.level == "allowed" { "A" } else { "W" });
+        }
+    }
+    // 3. AST identical except for the attribute itself
+    for i in 0..bfiles.len() {
+        let (Ok(mut bo), Ok(mut wo)) = (guarded(|| crate::model::observe::file(&bfiles[i])), guarded(|| crate::model::observe::file(&wfiles[i]))) else { continue };
+        strip_allow(&mut bo);
+        strip_allow(&mut wo);
+        if bo != wo {
+            let d = diff(&bo, &wo);
+            out.violate(format!("c13/{fam}/ast-changed"), format!("adding the suppression changed the AST of file {i} beyond the attribute itself: {:?}\n{}", d.map(|d| (d.path_named, d.expected, d.observed)), desc()));
+        }
+    }
+    class
+}
+
+pub struct Product {
+    ts: Vec<Template>,
+}
+impl Product {
+    pub fn new() -> Self {
+        Product { ts: templates() }
+    }
+}
+impl Family for Product {
+    fn name(&self) -> String {
+        format!("single-placement/{} templates x 8 placements x 5 arguments x {{alone, next to an error}}", self.ts.len())
+    }
+    fn len(&self) -> u64 {
+        self.ts.len() as u64 * 8 * 5 * 2
+    }
+    fn describe(&self, idx: u64) -> Value {
+        let (t, p, a, e) = self.decode(idx);
+        let r = render(t, &[(p, a.clone())], e);
+        json!({"lint": t.lint, "element": t.name, "placement": format!("{p:?}"), "argument": format!("{a:?}"), "files": r.files, "argv": r.cli})
+    }
+    fn run(&self, idx: u64) -> CaseOut {
+        let (t, p, a, e) = self.decode(idx);
+        let mut out = CaseOut::new(hash_str(&format!("c13p{idx}")));
+        out.steps = 0;
+        out.validated = 1;
+        if !place_exists(t, p) || (a == Arg::ThatLowercase && p != Place::Cli) {
+            out.class = "n/a".into();
+            return out;
+        }
+        out.nontrivial = in_scope_target(p) == Some(true);
+        out.class = format!("{:?}:{}", p, run_config(t, &[(p, a)], e, "single", &mut out));
+        out
+    }
+}
+impl Product {
+    fn decode(&self, idx: u64) -> (&Template, Place, Arg, bool) {
+        let e = idx % 2 == 1;
+        let a = ARGS[((idx / 2) % 5) as usize].clone();
+        let p = PLACES[((idx / 10) % 8) as usize];
+        let t = &self.ts[(idx / 80) as usize];
+        (t, p, a, e)
+    }
+}
+
+pub struct PlacementPairs {
+    ts: Vec<Template>,
+}
+impl PlacementPairs {
+    pub fn new() -> Self {
+        PlacementPairs { ts: templates() }
+    }
+    fn decode(&self, idx: u64) -> (&Template, (Place, Arg), (Place, Arg)) {
+        let args = [Arg::That, Arg::Other, Arg::All];
+        let a2 = args[(idx % 3) as usize].clone();
+        let a1 = args[((idx / 3) % 3) as usize].clone();
+        let p2 = PLACES[1 + ((idx / 9) % 7) as usize];
+        let p1 = PLACES[1 + ((idx / 63) % 7) as usize];
+        let t = &self.ts[(idx / 441) as usize];
+        (t, (p1, a1), (p2, a2))
+    }
+}
+impl Family for PlacementPairs {
+    fn name(&self) -> String {
+        format!("placement-pairs/{} templates x 7x7 placements x 3x3 arguments", self.ts.len())
+    }
+    fn len(&self) -> u64 {
+        self.ts.len() as u64 * 441
+    }
+    fn describe(&self, idx: u64) -> Value {
+        let (t, a, b) = self.decode(idx);
+        let r = render(t, &[a.clone(), b.clone()], false);
+        json!({"lint": t.lint, "element": t.name, "placements": format!("{a:?} + {b:?}"), "files": r.files, "argv": r.cli})
+    }
+    fn run(&self, idx: u64) -> CaseOut {
+        let (t, a, b) = self.decode(idx);
+        let mut out = CaseOut::new(hash_str(&format!("c13pp{idx}")));
+        out.steps = 0;
+        out.validated = 1;
+        if !place_exists(t, a.0) || !place_exists(t, b.0) || a.0 == b.0 {
+            out.class = "n/a".into();
+            return out;
+        }
+        out.nontrivial = in_scope_target(a.0) == Some(true) || in_scope_target(b.0) == Some(true);
+        out.class = run_config(t, &[a, b], false, "pairs", &mut out);
+        out
+    }
+}
+
+/// DuplicateFile: a command-line-only lint; real files given twice through compile_from_options.
+pub struct DuplicateFile;
+const DF_ARGS: [&[&str]; 8] = [&[], &["DuplicateFile"], &["All"], &["Deprecated"], &["duplicatefile"], &["ALL"], &["Deprecated", "DuplicateFile"], &["BrokenDocLink", "MalformedDocComment"]];
+impl Family for DuplicateFile {
+    fn name(&self) -> String {
+        "duplicate-file/8 --allow lists x {source twice, reference twice, both} on real files".into()
+    }
+    fn len(&self) -> u64 {
+        DF_ARGS.len() as u64 * 3
+    }
+    fn workers(&self) -> Option<usize> {
+        Some(4)
+    }
+    fn describe(&self, idx: u64) -> Value {
+        let shapes = ["a.slice a.slice", "a.slice -R b.slice -R b.slice", "a.slice a.slice -R b.slice -R b.slice -R a.slice"];
+        json!({"allow": DF_ARGS[(idx / 3) as usize], "shape": shapes[(idx % 3) as usize]})
+    }
+    fn run(&self, idx: u64) -> CaseOut {
+        let allow = DF_ARGS[(idx / 3) as usize];
+        let shape = idx % 3;
+        let mut out = CaseOut::new(hash_str(&format!("c13df{idx}")));
+        out.validated = 1;
+        out.nontrivial = !allow.is_empty();
+        let dir = std::env::temp_dir().join(format!("mc-c13-{}-{}", std::process::id(), idx));
+        let _ = std::fs::remove_dir_all(&dir);
+        std::fs::create_dir_all(&dir).unwrap();
+        let a = dir.join("a.slice");
+        let b = dir.join("b.slice");
+        std::fs::write(&a, "module A\n[deprecated] struct D {}\nstruct U { d: D }\n").unwrap();
+        std::fs::write(&b, "module B\nstruct Z {}\n").unwrap();
+        let (a, b) = (a.display().to_string(), b.display().to_string());
+        let mut argv: Vec<String> = vec!["slicec".into()];
+        let expected_dups = match shape {
+            0 => {
+                argv.extend([a.clone(), a.clone()]);
+                1
+            }
+            1 => {
+                argv.extend([a.clone(), "-R".into(), b.clone(), "-R".into(), b.clone()]);
+                1
+            }
+            _ => {
+                argv.extend([a.clone(), a.clone(), "-R".into(), b.clone(), "-R".into(), b.clone(), "-R".into(), a.clone()]);
+                2
+            }
+        };
+        for x in allow {
+            argv.push("-A".into());
+            argv.push(x.to_string());
+        }
+        let r = guarded(|| {
+            let opts = SliceOptions::try_parse_from(argv.clone()).map_err(|e| e.to_string())?;
+            let state = slicec::compile_from_options(&opts);
+            let slicec::compilation_state::CompilationState { ast, diagnostics, files } = state;
+            Ok::<_, String>(diagnostics.into_updated(&ast, &files, &opts).iter().map(diag_obs).collect::<Vec<_>>())
+        });
+        let _ = std::fs::remove_dir_all(&dir);
+        match r {
+            Err((loc, msg)) => out.violate(format!("c13/duplicate-file/panic@{loc}"), format!("{argv:?}: panic {msg}")),
+            Ok(Err(e)) => out.violate("c13/duplicate-file/cli-rejected", format!("{argv:?} rejected: {e}")),
+            Ok(Ok(diags)) => {
+                let named = |code: &str| allow.iter().any(|x| x.eq_ignore_ascii_case("All") || x.eq_ignore_ascii_case(code));
+                let dups: Vec<_> = diags.iter().filter(|d| d.code == "DuplicateFile").collect();
+                out.class = format!("dups={} levels={:?}", dups.len(), diags.iter().map(|d| d.level.chars().next().unwrap()).collect::<String>());
+                if dups.len() != expected_dups {
+                    out.violate("c13/duplicate-file/lint-count", format!("{argv:?}: expected {expected_dups} DuplicateFile lint(s), got {}", dups.len()));
+                }
+                for d in &diags {
+                    if d.level == "error" {
+                        out.violate("c13/duplicate-file/unexpected-error", format!("{argv:?}: {} {}", d.code, d.message));
+                        continue;
+                    }
+                    let exp = if named(&d.code) { "allowed" } else { "warning" };
+                    if d.level != exp {
+                        out.violate(format!("c13/duplicate-file/{}/{}", if exp == "allowed" { "not-silenced" } else { "wrongly-silenced" }, d.code), format!("{argv:?}: {} has level {} but must be {exp}", d.code, d.level));
+                    }
+                }
+                if !diags.iter().any(|d| d.code == "Deprecated") {
+                    out.violate("c13/duplicate-file/control-lint-missing", format!("{argv:?}: the Deprecated control lint disappeared"));
+                }
+            }
+        }
+        out
+    }
+}
 
 pub fn families(_tier: &str) -> Vec<Box<dyn Family>> {
-    vec![]
+    vec![Box::new(DuplicateFile), Box::new(Product::new()), Box::new(PlacementPairs::new())]
 }
